@@ -189,6 +189,13 @@ TABLE["C01"][2].extend([
    ("den_prep", "C01_prep_invariant", "pre-evaluating parameter expressions does not change the denotation (any layer kind)"),
 ])
 TABLE["C01"] = (TABLE["C01"][0], ["Base", "Circ", "Hom", "Gen", "Fold", "FoldCheck", "Scalar", "Tensor", "Pexpr", "Exec", "Ops", "Struct", "Link"], TABLE["C01"][2])
+TABLE["C14"][2].extend([
+   ("peval_shape", "C14_shape_inference", "for every parameter expression (all node types of coq/Pexpr.v, any nesting): if the symbolic shape rule pshape (the model of each node's declared `shape`) gives s and evaluation is defined, the evaluated tensor is rectangular with exactly shape s"),
+   ("eval_unop_shape", "C14_unary_shape", "every unary node applied to a tensor of positive shape s yields a tensor of the shape its rule declares (reductions drop the axis, index selects len(indices) along the axis, softmax / entrywise keep s)"),
+   ("eval_binop_shape", "C14_binary_shape", "idem for binary nodes (sum, Hadamard, Kronecker, outer product / sum along an axis, polynomial product, Gaussian product std)"),
+   ("alg_peval_defined", "C14_algebraic_total", "on the algebraic fragment evaluation of a well-shaped expression is always defined and has the inferred shape"),
+])
+TABLE["C14"] = (TABLE["C14"][0], ["Base", "Circ", "Multiply", "Algebra", "Hom", "Scalar", "Tensor", "Pexpr", "PShapes"], TABLE["C14"][2])
 
 if __name__ == "__main__":
     for pid in (sys.argv[1:] or TABLE):
